@@ -694,9 +694,9 @@ func vxCellFor(d vxDest, row []cqlspec.Value) cqlspec.Value {
 func TestVxC04Responses(t *testing.T) {
 	vx.Check(t, vx.Prop{
 		ID: "C04", Part: "TestVxC04Responses",
-		Rule: "abstract response (every kind x version 1..5; header flags tracing/warning(v4+)/custom payload(v4+)/compression with snappy or an independent lz4; metadata flag combinations; 0..6 columns of type trees to depth 2; 0..40 rows with null cells; every ERROR code incl. v5 reason maps; EVENT and SCHEMA_CHANGE variants) encoded by lib/cqlspec -> readHeader/readFrame/parseFrame -> field-by-field comparison; rows through Scan, Scanner, MapScan or SliceMap; body must be consumed exactly; non-trivial = a header flag, or nesting depth >= 2, or >= 2 rows with a null cell, or a tuple column; distinct by the whole case",
+		Rule: "abstract response (every kind x version 1..5; header flags tracing/warning(v4+)/custom payload(v4+)/compression with snappy or an independent lz4; metadata flag combinations; 0..6 columns of type trees to depth 2; 0..40 rows with null cells; every ERROR code incl. v5 reason maps; EVENT and SCHEMA_CHANGE variants) encoded by lib/cqlspec -> readHeader/readFrame/parseFrame -> field-by-field comparison; rows through Scan, Scanner, MapScan (empty map, or pre-filled with the caller's destination pointers) or SliceMap; body must be consumed exactly; non-trivial = a header flag, or nesting depth >= 2, or >= 2 rows with a null cell, or a tuple column; distinct by the whole case",
 		Draw: func(t *rapid.T) interface{} {
-			return &vxC04Case{Resp: vxDrawResponse(t), Codec: rapid.SampledFrom([]string{"", "", "snappy", "lz4"}).Draw(t, "codec"), Consumer: rapid.IntRange(0, 3).Draw(t, "consumer")}
+			return &vxC04Case{Resp: vxDrawResponse(t), Codec: rapid.SampledFrom([]string{"", "", "snappy", "lz4"}).Draw(t, "codec"), Consumer: rapid.IntRange(0, 4).Draw(t, "consumer")}
 		},
 		New: func() interface{} { return &vxC04Case{} },
 		Run: func(ci interface{}, k *vstats.Case) error {
@@ -918,6 +918,41 @@ func vxConsumeRows(iter *Iter, r *cqlspec.Response, consumer int, k *vstats.Case
 			}
 			if err := cmpMap(i, m); err != nil {
 				return fmt.Errorf("MapScan: %v", err)
+			}
+		}
+		if iter.MapScan(map[string]interface{}{}) {
+			return fmt.Errorf("MapScan returned a row after the last one")
+		}
+	case 4:
+		// "You can also pass pointers in the map before each call": every second scan target gets the
+		// caller's own destination, keyed by column name (tuple elements by TupleColumnName)
+		for i := range r.Rows {
+			dests := vxRowHolders(r.Meta)
+			m := map[string]interface{}{}
+			mine := map[int]bool{}
+			for j, d := range dests {
+				if (i+j)%2 == 0 {
+					name := r.Meta.Columns[d.col].Name
+					if d.elem >= 0 {
+						name = TupleColumnName(name, d.elem)
+					}
+					m[name] = d.ptr.Interface()
+					mine[j] = true
+				}
+			}
+			if !iter.MapScan(m) {
+				return fmt.Errorf("MapScan (pre-filled) false at row %d of %d: %v", i, len(r.Rows), iter.Close())
+			}
+			for j, d := range dests {
+				if !mine[j] {
+					continue
+				}
+				if err := vxCompare(d.ty, vxCellFor(d, r.Rows[i]), d.ptr.Elem(), fmt.Sprintf("row %d col %d (caller's destination)", i, d.col)); err != nil {
+					return fmt.Errorf("MapScan (pre-filled): %v", err)
+				}
+			}
+			if err := cmpMap(i, m); err != nil {
+				return fmt.Errorf("MapScan (pre-filled): %v", err)
 			}
 		}
 		if iter.MapScan(map[string]interface{}{}) {
